@@ -365,9 +365,6 @@ def _add_method_by_spec(
     func = FuncDef(name, args, Block([PassStmt()]))
     func.info = info
     func.type = set_callable_name(signature, func)
-    if isinstance(func.type, CallableType):
-        # Same as for methods from source code (and as after loading from cache).
-        func.type.definition = func
     func.is_class = is_classmethod
     func.is_static = is_staticmethod
     func._fullname = info.fullname + "." + name
